@@ -121,7 +121,19 @@ impl Analysis<Expr> for ExprAnalysis {
             unsafe { std::mem::transmute::<&mut f32, &mut F32>(&mut to.rows) },
             F32::from(from.rows),
         );
-        let merge_order = egg::merge_max(&mut to.orderby, from.orderby);
+        // The members of a class are equal as multisets only: a class is ordered by what ALL of its
+        // members are ordered by (the common prefix of their keys), because the plan that is extracted
+        // may be any member, e.g. a hash join from the class of a merge join.
+        let merge_order = {
+            let common = (to.orderby.iter().zip(from.orderby.iter()))
+                .take_while(|(a, b)| a == b)
+                .count();
+            let did = DidMerge(common != to.orderby.len(), common != from.orderby.len());
+            if did.0 {
+                to.orderby = to.orderby[..common].into();
+            }
+            did
+        };
         merge_const | merge_range | merge_columns | merge_schema | merge_rows | merge_order
     }
 
